@@ -17,8 +17,10 @@ periods / depth.  Hypotheses that restrict the settings or the stream are spelt 
 * a stable number of CPU entries per identifier (aligned, spacing of the series): by the stated reading of C20 a change
   of the number of cores within one stream is outside the property; the `IndexError` of the model (and of the code)
   when that number shrinks leaves `times` one point ahead (`C20_aligned_needs_stable_cores`).
-* exact arithmetic: values are exact fractions `num/den`; IEEE rounding is monitored on the implementation, not proved
-  (known finding `C20:cpu-above-100:float-rounding`).
+* exact arithmetic: values are exact fractions `num/den`; IEEE rounding is monitored on the implementation (judge on the
+  exact value of every float), not proved — except for the shape of the repaired `cpu_statistics` expression, for which
+  `C20_cpu_range_repaired_rounding` gives the argument under an abstract monotone rounding (defect
+  `C20:cpu-above-100:float-rounding`, repaired by 723bafe; its replay stays in the corpus as a regression case).
 -/
 
 namespace Supv.Props.C20
@@ -321,6 +323,34 @@ theorem C20_cpu_range_history (cfg : Cfg) (ops : List Op) (hmono : ops.Pairwise 
       · rw [href] at hr
         exact hP.1 r hr s' (List.mem_cons_of_mem _ hs')
 
+/-- an abstract rounding to a set of representable numbers: monotone, and exact on 0, 1 and 100 (IEEE-754
+    round-to-nearest — any IEEE rounding mode — has these properties as long as nothing overflows) -/
+structure Rounding (rnd : Rat → Rat) : Prop where
+  mono : ∀ a b, a ≤ b → rnd a ≤ rnd b
+  zero : rnd 0 = 0
+  one : rnd 1 = 1
+  hundred : rnd 100 = 100
+
+/-- **C20, CPU range, the repaired expression under rounding** (`100.0 * (work / total)`, fix 723bafe).  `w` and `i` are
+    the work and idle differences as the code holds them (already rounded, `w` representable), every further operation —
+    the sum, the quotient, the product — is rounded by an arbitrary monotone rounding that is exact on 0, 1 and 100.
+    For non-decreasing counters (`0 ≤ w`, `0 ≤ i`) the result lies in [0, 100]: the rounded quotient cannot exceed 1.
+    (The former expression `100.0 * work / total` rounds the product first and has no such bound: 11.54 gives
+    100.00000000000001, regression case `corpus/C20/kf_cpu_above_100_float_rounding.json`.) -/
+theorem C20_cpu_range_repaired_rounding (rnd : Rat → Rat) (hr : Rounding rnd) (w i : Rat) (hw : 0 ≤ w) (hi : 0 ≤ i)
+    (hwr : rnd w = w) (ht : rnd (w + i) ≠ 0) :
+    0 ≤ rnd (100 * rnd (w / rnd (w + i))) ∧ rnd (100 * rnd (w / rnd (w + i))) ≤ 100 := by
+  have h1 : w ≤ rnd (w + i) := by
+    have := hr.mono w (w + i) (by grind)
+    rwa [hwr] at this
+  have hpos : 0 < rnd (w + i) := by grind
+  obtain ⟨hq0, hq1⟩ := rat_div_unit hw h1 hpos
+  have hx0 : 0 ≤ rnd (w / rnd (w + i)) := by have := hr.mono _ _ hq0; rwa [hr.zero] at this
+  have hx1 : rnd (w / rnd (w + i)) ≤ 1 := by have := hr.mono _ _ hq1; rwa [hr.one] at this
+  have hy0 : (0 : Rat) ≤ 100 * rnd (w / rnd (w + i)) := by grind
+  have hy1 : 100 * rnd (w / rnd (w + i)) ≤ 100 := by grind
+  exact ⟨by have := hr.mono _ _ hy0; rwa [hr.zero] at this, by have := hr.mono _ _ hy1; rwa [hr.hundred] at this⟩
+
 /-! ## I/O rates -/
 
 /-- **C20, "I/O rates are finite and non-negative"** (`io_statistics`, exact arithmetic), including the counter-wrap
@@ -448,6 +478,27 @@ theorem C20_proc_cpu_range (u : Units) (htps : 0 < u.tps) (hvs : 0 < u.vs) (r s 
   have h100 := Int.mul_le_mul_of_nonneg_left hcap (show (0 : Int) ≤ 100 by omega)
   grind
 
+/-- **IRIX / Solaris view** (`ProcStatisticsCompiler.get_stats` → `copy(cpu_factor)`).  The copy handed out for a
+    process, identifier and period carries the time and memory series unchanged and one CPU value per stored value:
+    the stored fraction in IRIX mode, the stored fraction divided by the number of cores known for the identifier
+    (1 when unknown) in Solaris mode — so the copy is bounded and aligned whenever the history is. -/
+theorem C20_get_stats_copy (irix : Bool) (c : ProcComp) (ns id : Nat) (q : Int) (v : ProcView)
+    (h : c.get irix ns id q = .ok (some v)) :
+    ∃ p, c.find ns id q = some p ∧ v.times = p.times ∧ v.mem = p.mem
+      ∧ v.cpu = p.cpu.map (fun x => (x.1, x.2 * (if irix then 1 else (AL.get? c.cores id).getD 1))) := by
+  cases hf : c.find ns id q with
+  | none => simp [ProcComp.get, hf] at h
+  | some p =>
+    refine ⟨p, rfl, ?_⟩
+    cases irix
+    all_goals
+      simp only [ProcComp.get, hf, Bool.false_eq_true, if_false, if_true] at h
+      split at h
+      · simp at h
+      · simp only [Except.ok.injEq, Option.some.injEq] at h
+        subst h
+        simp
+
 /-! ## the hypotheses are satisfiable by non-trivial streams -/
 
 /-- a stream used by the examples: one identifier, two CPU entries, an interface that wraps (measure 3) and comes back,
@@ -509,5 +560,13 @@ example : (run demoCfg {} demoOps).proc.pidOf 1 0 = some 7 ∧ (7 : Int) ≠ 8 :
 
 /-- `C20_proc_cpu_range`: two cores, 1.5 CPU-seconds consumed in one second -/
 example : ((3 : Int) - 0) * 1024 ≤ 2 * (1024 - 0) * 2 := by decide
+
+/-- `C20_get_stats_copy`: Solaris mode with 4 cores known for the identifier: the stored 300/1 % is handed out as 300/4 % -/
+example : ProcComp.get false
+    { holders := [(1, { entries := [(0, 7, [{ pid := 7, period := 5, depth := 3, times := [5], cpu := [(300, 1)], mem := [2] }])] })],
+      cores := [(0, 4)] } 1 0 5 = .ok (some { times := [5], mem := [2], cpu := [(300, 4)] }) := rfl
+
+/-- `C20_cpu_range_repaired_rounding`: the identity is a rounding; a busy interval -/
+example : Rounding id ∧ (id ((3 : Rat) + 0) ≠ 0) := ⟨⟨fun _ _ h => h, rfl, rfl, rfl⟩, by simp only [id]; grind⟩
 
 end Supv.Props.C20
